@@ -701,6 +701,20 @@ pub fn exec(lineno: usize, l: &str) -> String {
             });
             push_opt(&mut o, r);
         },
+        // projection for C09 (validated entry points): is the validated value the plain value?
+        "vsame" => {
+            let v = nums();
+            let n = v[0] as usize;
+            fn vs<H: HandRanker + HandValidator>(h: &H, o: &mut String) {
+                push_opt(o, guard(|| b(h.hand_rank_value_validated() == h.hand_rank_value() && h.hand_rank_validated().value == h.hand_rank_value())));
+            }
+            match n {
+                5 => vs(&Five::from(a5(&v[1..])), &mut o),
+                6 => vs(&Six::from(a6(&v[1..])), &mut o),
+                7 => vs(&Seven::from(a7(&v[1..])), &mut o),
+                _ => panic!("bad size"),
+            }
+        },
         // projection for C06: is the rank record reported for a hand the conversion of the hand's value (plain and
         // validated), and not Invalid?
         "hrself" => {
